@@ -79,6 +79,16 @@ def work(ctx, tier):
     n = (5000 if tier == "quick" else 150000) // ctx.nshards
     for k in range(n):
         sc = gen.rand_scenario(rng, p_special=0.02, p_budget=0.2, p_handler=0.2, p_abort=0.1, ncalls=(1, 2), p_no_sleeper=0.3, p_strategy_objects=0.4, rf_time=True, p_via_config=0.3, p_via_attrs=0.25, p_attempt_timeout=0.15)
+        if k % 6 == 2:
+            # a strategy that answers None on a later retry (the library rejects that): no sleep may be requested on its strength,
+            # let alone one that no longer fits the remaining time
+            for c in sc["calls"]:
+                sv = c["strat_values"]
+                for j in range(1, len(sv)):
+                    if rng.random() < 0.5:
+                        sv[j] = "none"
+                c["strat_values"] = [0.5 if (j == 0 and isinstance(x, (int, float)) and x == 0) else x for j, x in enumerate(sv)]
+            ctx.inc("scenarios_with_a_strategy_answering_none")
         if k % 6 == 4:
             # the abort predicate's first evaluation - before attempt 1 - takes time: the envelope is measured from the start of the call
             sc["poll"] = True
